@@ -43,8 +43,11 @@ Definition permute_schedule (dims : list nat) : option (list nat * list nat) :=
   let d := length dims in
   bloop (fun x => index_of x dims) (d * d + 1) (seq 0 d) [].
 
-(* ---- to_qtt on TT tensors with mode_size 2 (torchtt/_tt_base.py): a core whose mode is 2^k with k > 1 is split into k cores of mode 2;
-   a core with int(log2 n) <= 1 (n = 1, 2, 3) is kept as it is.  Nat.log2 is the integer part of the logarithm, as int(math.log(n, 2))
-   is for the sizes in range (checked by the correspondence). ---- *)
+(* ---- to_qtt on TT tensors with mode_size 2 (torchtt/_tt_base.py): every mode must be a power of two (qtt_ok; otherwise ShapeMismatch - the
+   repaired code; the pinned code kept a mode 3 silently); a core whose mode is 2^k with k > 1 is split into k cores of mode 2, a core of mode
+   1 or 2 is kept as it is.  Nat.log2 is the exponent for the powers of two (checked by the correspondence). ---- *)
+Definition qtt_ok (ns : list nat) : bool := forallb (fun n => Nat.eqb (2 ^ Nat.log2 n) n) ns.
 Definition qtt_modes (ns : list nat) : list nat :=
   flat_map (fun n => if Nat.ltb 1 (Nat.log2 n) then repeat 2 (Nat.log2 n) else [n]) ns.
+(* what the call does: [0] = ShapeMismatch, 1 :: modes = the modes of the result *)
+Definition qtt_call (ns : list nat) : list nat := if qtt_ok ns then 1 :: qtt_modes ns else [0].
